@@ -155,7 +155,7 @@ func genC14(t *Tape) *shScenario {
 		for c := range sc.Callers {
 			for i := range sc.Callers[c] {
 				if t.Chance(1, 3) {
-					sc.Callers[c][i].Ctx = []time.Duration{100 * time.Microsecond, time.Millisecond, 4 * time.Millisecond}[t.Choose(3)]
+					sc.Callers[c][i].Ctx = []time.Duration{100 * time.Microsecond, time.Millisecond, 4 * time.Millisecond}[t.Choose(3)] + 137*time.Nanosecond // (a runtime timer: kept off the instants at which the client itself wakes)
 				}
 			}
 		}
